@@ -263,4 +263,167 @@ theorem fix_spec : ∀ (fuel : Nat) (ts : List BT) (ids : List Nat) (t : BmTable
             simp only [idsL, idsN, List.cons_append, List.mem_cons, List.mem_append, not_or] at hq
             rw [hframe3 q hq.2.2, hframe2 q hq.2.1]; exact hframe1 q hq.1 hq.2.1
 
+/-! ## distinct ids for every `add_bookmark` sequence -/
+
+theorem idsL_append : ∀ (a b : List BT), idsL (a ++ b) = idsL a ++ idsL b := by
+  intro a
+  induction a with
+  | nil => intro b; rfl
+  | cons t r ih => intro b; simp only [List.cons_append, idsL, ih, List.append_assoc]
+
+theorem insert_absent : ∀ (n : Nat) (ts : List BT), BT.sizeL ts ≤ n → ∀ (p : Nat) (new : BT),
+    p ∉ idsL ts → BT.insertUnderL p new ts = ts := by
+  intro n
+  induction n with
+  | zero => intro ts h; have := BT.sizeL_eq_zero (Nat.le_zero.mp h); subst this; intros; rfl
+  | succ n ih =>
+    intro ts hsz p new hp
+    cases ts with
+    | nil => rfl
+    | cons t r =>
+      cases t with
+      | node id title f c page kids =>
+        simp only [BT.sizeL, BT.size] at hsz
+        simp only [idsL, idsN, List.cons_append, List.mem_cons, List.mem_append, not_or] at hp
+        have : ¬ id = p := fun e => hp.1 e.symm
+        simp only [BT.insertUnderL, BT.insertUnder, this, if_false, ih kids (by omega) p new hp.2.1,
+          ih r (by omega) p new hp.2.2]
+
+theorem insert_perm : ∀ (n : Nat) (ts : List BT), BT.sizeL ts ≤ n → ∀ (p k : Nat) (new : BT), idsN new = [k] →
+    (idsL ts).Nodup →
+    (idsL (BT.insertUnderL p new ts)).Perm (if p ∈ idsL ts then k :: idsL ts else idsL ts) := by
+  intro n
+  induction n with
+  | zero => intro ts h; have := BT.sizeL_eq_zero (Nat.le_zero.mp h); subst this; intros; simp [BT.insertUnderL, idsL]
+  | succ n ih =>
+    intro ts hsz p k new hnew hnd
+    cases ts with
+    | nil => simp [BT.insertUnderL, idsL]
+    | cons t r =>
+      cases t with
+      | node id title f c page kids =>
+        simp only [BT.sizeL, BT.size] at hsz
+        simp only [idsL, idsN, List.cons_append, List.nodup_cons, List.mem_append, not_or] at hnd
+        obtain ⟨⟨hid_k, hid_r⟩, hnd2⟩ := hnd
+        obtain ⟨hnk, hnr, hdisj⟩ := List.nodup_append.mp hnd2
+        simp only [BT.insertUnderL, BT.insertUnder]
+        by_cases hp : id = p
+        · subst hp
+          have hmem : id ∈ idsL (BT.node id title f c page kids :: r) := by simp [idsL, idsN]
+          simp only [if_true, hmem, insert_absent _ r (Nat.le_refl _) id new hid_r]
+          simp only [idsL, idsN, idsL_append, hnew, List.append_nil]
+          have e : id :: (idsL kids ++ [k]) ++ idsL r = (id :: idsL kids) ++ k :: idsL r := by simp
+          rw [e]
+          exact List.perm_middle
+        · simp only [hp, if_false]
+          have hne : ¬ p = id := fun e => hp e.symm
+          by_cases hpk : p ∈ idsL kids
+          · have hpr : p ∉ idsL r := fun h => hdisj p hpk p h rfl
+            have hmem : p ∈ id :: (idsL kids ++ idsL r) := by simp [hpk]
+            have := ih kids (by omega) p k new hnew hnk
+            simp only [hpk, if_true] at this
+            simp only [insert_absent _ r (Nat.le_refl _) p new hpr, idsL, idsN, List.cons_append]
+            simp only [hmem, if_true]
+            refine List.Perm.trans (List.Perm.cons id (List.Perm.append_right _ this)) ?_
+            exact List.Perm.swap k id _
+          · have := ih r (by omega) p k new hnew hnr
+            simp only [insert_absent _ kids (Nat.le_refl _) p new hpk, idsL, idsN, List.cons_append]
+            by_cases hpr : p ∈ idsL r
+            · have hmem : p ∈ id :: (idsL kids ++ idsL r) := by simp [hpr]
+              simp only [hpr, if_true] at this
+              simp only [hmem, if_true]
+              refine List.Perm.trans (List.Perm.cons id (List.Perm.append_left _ this)) ?_
+              have e : id :: (idsL kids ++ k :: idsL r) = (id :: idsL kids) ++ k :: idsL r := by simp
+              rw [e]
+              exact List.perm_middle
+            · have hmem : ¬ p ∈ id :: (idsL kids ++ idsL r) := by simp [hne, hpk, hpr]
+              simp only [hpr, if_false] at this
+              simp only [hmem, if_false]
+              exact List.Perm.cons id (List.Perm.append_left _ this)
+
+/-- the forest of any call sequence has pairwise distinct ids, all ≤ the counter -/
+theorem ids_step (st : Nat × List BT) (op : Bm × Option Nat)
+    (h : (idsL st.2).Nodup ∧ ∀ i ∈ idsL st.2, i ≤ st.1) :
+    (idsL (forestStep st op).2).Nodup ∧ ∀ i ∈ idsL (forestStep st op).2, i ≤ (forestStep st op).1 := by
+  obtain ⟨hn, hb⟩ := h
+  have hk : st.1 + 1 ∉ idsL st.2 := fun hm => by have := hb _ hm; omega
+  cases hp : op.2 with
+  | none =>
+    simp only [forestStep, hp, idsL_append, idsL, idsN, List.append_nil]
+    refine ⟨?_, ?_⟩
+    · rw [List.nodup_append]
+      refine ⟨hn, by simp, ?_⟩
+      intro a ha b hb' e
+      simp at hb'; subst hb'; subst e; exact hk ha
+    · intro i hi
+      simp only [List.mem_append, List.mem_singleton] at hi
+      rcases hi with hi | rfl
+      · have := hb i hi; omega
+      · omega
+  | some p =>
+    simp only [forestStep, hp]
+    have hperm := insert_perm _ st.2 (Nat.le_refl _) p (st.1 + 1)
+      (BT.node (st.1 + 1) op.1.title op.1.format op.1.color op.1.page []) (by simp [idsN, idsL]) hn
+    refine ⟨?_, ?_⟩
+    · rw [hperm.nodup_iff]
+      split
+      · exact List.nodup_cons.mpr ⟨hk, hn⟩
+      · exact hn
+    · intro i hi
+      rw [hperm.mem_iff] at hi
+      split at hi
+      · simp only [List.mem_cons] at hi
+        rcases hi with rfl | hi
+        · omega
+        · have := hb i hi; omega
+      · have := hb i hi; omega
+
+theorem ids_nodup_of_ops (ops : List (Bm × Option Nat)) : (idsL (forestOfOps ops)).Nodup := by
+  have : ∀ (ops : List (Bm × Option Nat)) (st : Nat × List BT),
+      ((idsL st.2).Nodup ∧ ∀ i ∈ idsL st.2, i ≤ st.1) →
+      ((idsL (ops.foldl forestStep st).2).Nodup ∧ ∀ i ∈ idsL (ops.foldl forestStep st).2, i ≤ (ops.foldl forestStep st).1) := by
+    intro ops
+    induction ops with
+    | nil => intro st h; exact h
+    | cons op r ih => intro st h; simp only [List.foldl_cons]; exact ih _ (ids_step st op h)
+  exact (this ops (0, []) ⟨by simp [idsL], by simp [idsL]⟩).1
+
+/-- **adjust_zero_pages.** For EVERY sequence of `add_bookmark(Bookmark::new(..), parent)` calls and
+all fuel ≥ the number of reachable bookmarks, `adjust_zero_pages` finishes, keeps `bookmarks` and the
+id counter, leaves every unreachable bookmark alone, and afterwards the table represents the
+bottom-up specification `adjL` of the forest: a bookmark with page number 0 that has children takes
+the first non-zero adjusted page among its children (else (0,0)); every other page is unchanged. -/
+theorem adjust_spec (ops : List (Bm × Option Nat)) (hc : ∀ op ∈ ops, op.1.children = [])
+    (fuel : Nat) (hfuel : BT.sizeL (forestOfOps ops) ≤ fuel) :
+    ∃ s', adjustZeroPages fuel (addAll BmState.empty ops) = some s' ∧
+      s'.roots = (addAll BmState.empty ops).roots ∧ s'.maxBm = (addAll BmState.empty ops).maxBm ∧
+      repL s'.table s'.roots (adjL (forestOfOps ops)) = true ∧
+      (∀ q, q ∉ idsL (forestOfOps ops) → s'.table.get q = (addAll BmState.empty ops).table.get q) := by
+  obtain ⟨t', ts', res, hrun, hrep, _, hframe, _, htrue⟩ :=
+    fix_spec fuel (forestOfOps ops) _ _ true (rep_of_ops ops hc) (ids_nodup_of_ops ops) hfuel
+  refine ⟨{ (addAll BmState.empty ops) with table := t' }, ?_, rfl, rfl, ?_, hframe⟩
+  · simp [adjustZeroPages, hrun]
+  · rw [← htrue rfl]; exact hrep
+
+/-- adjusting keeps the shape: same ids, hence `build_outline` afterwards sees the same forest with
+adjusted pages (so `outline_links` / `toc_readback` apply to `adjL (forestOfOps ops)`). -/
+theorem adjust_then_build (ops : List (Bm × Option Nat)) (hc : ∀ op ∈ ops, op.1.children = [])
+    (fuelA fuelB maxId : Nat) (hfA : BT.sizeL (forestOfOps ops) ≤ fuelA)
+    (hne : forestOfOps ops ≠ []) (hfB : BT.sizeL (adjL (forestOfOps ops)) ≤ fuelB) :
+    ∃ s' b, adjustZeroPages fuelA (addAll BmState.empty ops) = some s' ∧
+      buildOutline fuelB s' maxId = some (some b) ∧ b.root = (maxId + 1, 0) ∧
+      EmbL b.objs.get (maxId + 1) (maxId + 1, 0) none (adjL (forestOfOps ops)) := by
+  obtain ⟨s', hrun, _, _, hrep, _⟩ := adjust_spec ops hc fuelA hfA
+  have hne' : adjL (forestOfOps ops) ≠ [] := by
+    cases h : forestOfOps ops with
+    | nil => exact absurd h hne
+    | cons _ _ => simp [adjL]
+  obtain ⟨b, hb, hroot, _, _, hemb⟩ := outline_links s' _ maxId fuelB hrep hne' hfB
+  exact ⟨s', b, hrun, hb, hroot, hemb⟩
+
+/-- non-vacuity: a zero-page parent whose first child is a zero-page parent of a real page -/
+example : adjL [.node 1 [65] 0 [] (0, 7) [.node 2 [66] 0 [] (0, 0) [.node 3 [67] 0 [] (5, 0) []], .node 4 [68] 0 [] (6, 0) []]]
+    = [.node 1 [65] 0 [] (5, 0) [.node 2 [66] 0 [] (5, 0) [.node 3 [67] 0 [] (5, 0) []], .node 4 [68] 0 [] (6, 0) []]] := by
+  rfl
+
 end Lopdf.C17
